@@ -294,6 +294,7 @@ def check(chk):
                text="start removes pause")
     _tick_arithmetic(chk, tm)
     _timed_pause(chk, repo)
+    _control_event_kwargs(chk, repo)
     _timer_reloaded_from_config(chk, repo)
     # whoever (re)creates the periodic tick leaves it armed: no removal of the system timer after the creation on any path
     for name in ("start", "jump", "set_tick_interval", "change_tick_interval", "restart"):
@@ -525,6 +526,59 @@ def _is_grid_advance(stmt):
     return isinstance(v, ast.BinOp) and isinstance(v.op, ast.Add) and {src(v.left), src(v.right)} == {"self._last_call", "self._interval"}
 
 
+def _control_event_kwargs(chk, repo):
+    """CTRL-13: a control event's handler is registered with that entry's own argument.  `kwargs` is built up in the loop over the
+    configured control events; whenever the action selected by a branch names a Timer method that reads an argument (timer_value / change),
+    every path from that branch to the registration assigns `kwargs` in the same trip.  A value left over from the previous entry turns
+    `pause` without a value (for ever) into a timed pause: the timer resumes by itself and ticks while it should be paused."""
+    f = repo.func(TM, "Timer._setup_control_events")
+    chk.analysed(f)
+    cfg = f.cfg()
+    tcls = repo.cls(TM, "Timer")
+    heads = [h for h in cfg.nodes if h.kind == "loop"]
+    regs = [(n, c) for n, c in cfg.calls_named("add_handler")]
+    chk.need(len(heads) == 1 and regs, "CTRL-13", "Timer._setup_control_events registers one handler per configured control event", f)
+    head = heads[0]
+    kwname = None
+    for n, c in regs:
+        for k in c.keywords:
+            if k.arg is None and isinstance(k.value, ast.Name):
+                kwname = k.value.id
+    chk.need(kwname is not None, "CTRL-13", "the registration hands the entry's arguments on (**kwargs)", f)
+    inside = {id(x) for st in head.ast.body for x in ast.walk(st)}
+    assigns = [n.id for n in cfg.nodes if n.kind == "stmt" and isinstance(n.ast, ast.Assign) and id(n.ast) in inside and
+               any(isinstance(t, ast.Name) and t.id == kwname for t in n.ast.targets)]
+    k = 0
+    for b in cfg.nodes:
+        if b.kind != "branch" or b.value is not True or id(b.ast) not in inside or not isinstance(b.ast, ast.Compare) or len(b.ast.ops) != 1:
+            continue
+        if not src(b.ast.left).replace('"', "'") == "entry['action']":
+            continue
+        if isinstance(b.ast.ops[0], ast.In) and isinstance(b.ast.comparators[0], (ast.Tuple, ast.List, ast.Set)):
+            actions = [const_value(e) for e in b.ast.comparators[0].elts]
+        elif isinstance(b.ast.ops[0], ast.Eq):
+            actions = [const_value(b.ast.comparators[0])]
+        else:
+            continue
+        reading = []
+        for a in actions:
+            m_ = tcls.methods.get(a)
+            if m_ is None:
+                continue
+            ps = [x.arg for x in m_.node.args.args if x.arg != "self"]
+            if ps:
+                reading.append("%s(%s)" % (a, ", ".join(ps)))
+        if not reading:
+            continue
+        k += 1
+        w = cfg.path_avoiding(b.id, [n.id for n, _ in regs], assigns + [head.id], ignore_exc=True)
+        chk.ob("CTRL-13", "control events %s are registered with arguments built from their own entry" % ", ".join(reading), w is None, f.where(b.ast),
+               detail="a path reaches add_handler(**%s) without assigning %s in this trip: the previous entry's value is handed on" % (kwname, kwname),
+               construct=f.ident, text="control event arguments of " + "/".join(str(a) for a in actions)[:60],
+               path=cfg.fmt_path(w, f) if w else None, nontrivial=True)
+    chk.ob("CTRL-13", "branches of the control event table examined (%d)" % k, k >= 2, f.where(), nontrivial=False)
+
+
 def _timed_pause(chk, repo):
     """PAUSE-13: a timed pause lasts as long as asked: the pause length goes through _get_timer_value(in_ms=True), which scales to ms
     *inside* its int() (0.5 s is 500 ms, not 0 = for ever), the resume delay is armed for exactly that length and only for a positive one,
@@ -621,6 +675,8 @@ def _tick_arithmetic(chk, tm):
 def battery():
     from sa.battery import M
     return [
+        M("pause without a value inherits the previous entry's value", TM, "            if entry['action'] in ('add', 'subtract', 'jump', 'pause', 'set_tick_interval'):\n                handler = getattr(self, entry['action'])\n                kwargs = {'timer_value': entry['value']}\n", "            if entry['action'] in ('add', 'subtract', 'jump', 'set_tick_interval'):\n                handler = getattr(self, entry['action'])\n                kwargs = {'timer_value': entry['value']}\n\n            elif entry['action'] == 'pause':\n                handler = self.pause\n                if entry['value'] is not None:\n                    kwargs = {'timer_value': entry['value']}\n", "CTRL-13"),
+        M("twin: pause gets a branch of its own", TM, "            if entry['action'] in ('add', 'subtract', 'jump', 'pause', 'set_tick_interval'):\n                handler = getattr(self, entry['action'])\n                kwargs = {'timer_value': entry['value']}\n", "            if entry['action'] in ('add', 'subtract', 'jump', 'set_tick_interval'):\n                handler = getattr(self, entry['action'])\n                kwargs = {'timer_value': entry['value']}\n\n            elif entry['action'] == 'pause':\n                handler = self.pause\n                kwargs = {'timer_value': entry['value']}\n", None),
         M("zero-length delay runs at once", DL, "        self.delays[name] = (self.machine.clock.schedule_once(\n            partial(self._process_delay_callback, name, callback, **kwargs),", "        if ms <= 0:\n            self._process_delay_callback(name, callback, **kwargs)\n            return name\n        self.delays[name] = (self.machine.clock.schedule_once(\n            partial(self._process_delay_callback, name, callback, **kwargs),", "FLOW-5"),
         M("delay scheduled in ms as seconds", DL, "            ms / 1000.0), partial(callback, **kwargs))", "            ms), partial(callback, **kwargs))", "UNIT-4"),
         M("caller passes seconds", "mpf/devices/driver.py", "self.delay.add_if_doesnt_exist(self.config['max_hold_duration'] * 1000,", "self.delay.add_if_doesnt_exist(self.config['max_hold_duration'],", "UNIT-4"),
